@@ -684,6 +684,14 @@ Section GNCopy.
     apply (np_bind P0 (fun i n => i < n)); [exact M0|eapply np_pre; [|apply np_push_type]; intros; constructor|intros new].
     set (P1 := fun n : positive => P0 n /\ new < n).
     assert (M1 : mono P1) by (unfold P1; intros n n' Hn [X Y]; split; [eapply M0; eassumption|lia]).
+    apply (np_bind P1 (fun h n => below n (tyh_ids h))); [exact M1|eapply np_pre; [|apply np_find_type]; unfold P1, P0; intros n [[[_ _] X] _]; exact X|intros tb].
+    destruct (is_basic tb).
+    { apply (np_bind _ (fun _ _ => True)).
+      - intros n n' Hn [X Y]. split; [eapply M1; eassumption|eapply below_mono; eassumption].
+      - eapply np_pre; [|apply np_set_type]. unfold P1. intros n H. dcmp. auto.
+      - intros _. apply np_ret. unfold P1, P0. intros n H. dcmp. cbn [fst snd]. split; [assumption|].
+        constructor; [cbn [snd]; assumption|assumption]. }
+    eapply np_pre; [intros n X; exact (proj1 X)|].
     apply (np_bind P1 (fun nd n => node_ok n nd)); [exact M1|eapply np_pre; [|apply np_find_node]; unfold P1, P0; intros n [[[_ _] X] _]; exact X|intros nd].
     set (P2 := fun n : positive => P1 n /\ node_ok n nd).
     assert (M2 : mono P2) by (unfold P2; intros n n' Hn [X Y]; split; [eapply M1; eassumption|eapply node_ok_mono; eassumption]).
